@@ -567,8 +567,11 @@ func runC20(c *core.Ctx) {
 			docs = []string{"@x\n", "    @x\n"}
 		case "inline":
 			docs = []string{"a @ b\n"}
-		case "paragraph-transformer", "ast-transformer":
+		case "paragraph-transformer":
 			docs = []string{"a\n"}
+		case "ast-transformer":
+			// AST transformers run on every document, also on one in which no block opens
+			docs = []string{"a\n", "", "\n", "  \n\n", "[r]: /only-a-definition\n"}
 		case "renderer":
 			docs = []string{"a@b\n"}
 		}
